@@ -10,10 +10,20 @@
 // extra parameter and result), error values listed in the config (nil = None), calls of other
 // translated functions/methods and conversions. Unsigned arithmetic wraps at the width of the Go type
 // (Lib/GoOps.v). Anything else makes the translator fail, which the check reports as a broken tie.
+//
+// Struct receivers (config "structs"): a method with a pointer receiver of a struct type listed there is
+// translated in "monadic mode": the struct becomes a Record whose fields are read from the type
+// declaration in the source (unsigned integers and []byte), the function takes the record and returns
+// `option (record * results)`, None = Go run-time panic. r.f reads a field, r.f = e / r.f++ / r.f--
+// rebuild the record, len(r.f) is the list length, r.f[i] is a bounds-checked read hoisted in front
+// of the statement (None when out of range), a call r.M(args) of another translated method of the
+// same struct is hoisted likewise and threads the record. A hoisted call must be the whole
+// expression (or its negation); index reads must not sit under && or ||.
 package main
 
 import (
 	"encoding/json"
+	"sort"
 	"fmt"
 	"go/ast"
 	"go/parser"
@@ -37,7 +47,16 @@ type config struct {
 	Consts  map[string]string `json:"consts"`  // Go expression text -> "coqname:width"
 	Globals map[string]string `json:"globals"` // Go var name -> "coqname:width"
 	Errors  map[string]string `json:"errors"`  // Go error var name -> tag string
+	Structs map[string]string `json:"structs"` // struct type name -> file (relative to repo root) declaring it
 }
+
+type sfield struct {
+	name  string
+	width int // >0 unsigned integer width, -4 = []byte
+}
+
+var structFields = map[string][]sfield{}
+var structPkg = map[string]string{}
 
 var cfg config
 
@@ -86,6 +105,11 @@ func typeOf(e ast.Expr, pkg string) tinfo {
 			return tinfo{width: 16}
 		case "uint8", "byte":
 			return tinfo{width: 8}
+		case "error":
+			return tinfo{width: -2}
+		}
+		if _, ok := cfg.Structs[t.Name]; ok {
+			return tinfo{width: -5, named: t.Name}
 		}
 		if w, ok := cfg.Types[t.Name]; ok {
 			return tinfo{width: w, named: t.Name}
@@ -132,6 +156,57 @@ type translator struct {
 	results  []tinfo
 	funcs    map[string]fnSpec // "Recv.Name" or "Name" -> spec (same package) ; "pkg.Name"
 	usedGlob map[string]bool
+	mon      string   // monadic mode: name of the struct type of the pointer receiver ("" otherwise)
+	pre      []string // hoisted bindings of the statement being translated (monadic mode)
+	ntmp     int
+	hoistedCall bool
+	noHoist  int // >0 while under the right operand of && / ||
+}
+
+func recName(pkg, st string) string { return "go_" + pkg + "_" + st }
+func fieldName(st, f string) string { return "f_" + st + "_" + f }
+
+func (tr *translator) tmp() string {
+	tr.ntmp++
+	return fmt.Sprintf("t%d", tr.ntmp)
+}
+
+// wrapPre encloses a statement's term in the hoisted bindings collected while translating it
+func (tr *translator) wrapPre(pre []string, body string) string {
+	for i := len(pre) - 1; i >= 0; i-- {
+		body = pre[i] + "\n  " + body + " end"
+	}
+	return body
+}
+
+// field access on the struct receiver: returns (field, ok)
+func (tr *translator) recvField(e ast.Expr) (sfield, bool) {
+	sel, ok := e.(*ast.SelectorExpr)
+	if !ok || tr.mon == "" {
+		return sfield{}, false
+	}
+	id, ok := sel.X.(*ast.Ident)
+	if !ok || id.Name != tr.ptrRecv {
+		return sfield{}, false
+	}
+	for _, f := range structFields[tr.mon] {
+		if f.name == sel.Sel.Name {
+			return f, true
+		}
+	}
+	return sfield{}, false
+}
+
+func (tr *translator) setField(f sfield, val string) string {
+	var parts []string
+	for _, g := range structFields[tr.mon] {
+		if g.name == f.name {
+			parts = append(parts, val)
+		} else {
+			parts = append(parts, "("+fieldName(tr.mon, g.name)+" "+v(tr.ptrRecv)+")")
+		}
+	}
+	return "(mk_" + recName(structPkg[tr.mon], tr.mon) + " " + strings.Join(parts, " ") + ")"
 }
 
 func (tr *translator) wrap(w int, s string) string {
@@ -177,10 +252,26 @@ func (tr *translator) expr(e ast.Expr, en *env) (string, tinfo) {
 			return fmt.Sprintf("(Some %q%%string)", tag), tinfo{width: -2}
 		}
 	case *ast.SelectorExpr:
+		if f, ok := tr.recvField(t); ok {
+			return "(" + fieldName(tr.mon, f.name) + " " + v(tr.ptrRecv) + ")", tinfo{width: f.width}
+		}
 		txt := exprText(t)
 		if c, ok := cfg.Consts[txt]; ok {
 			n, w := splitNameWidth(c)
 			return n, tinfo{width: w}
+		}
+	case *ast.IndexExpr:
+		if tr.mon != "" {
+			xs, xt := tr.expr(t.X, en)
+			if xt.width == -4 {
+				if tr.noHoist > 0 {
+					fail("%s: index expression under && or ||", tr.fn.Name)
+				}
+				is, _ := tr.expr(t.Index, en)
+				tmp := tr.tmp()
+				tr.pre = append(tr.pre, fmt.Sprintf("match gidx %s %s with None => None | Some %s =>", xs, is, tmp))
+				return tmp, tinfo{width: 8}
+			}
 		}
 	case *ast.StarExpr:
 		if id, ok := t.X.(*ast.Ident); ok && id.Name == tr.ptrRecv {
@@ -201,7 +292,13 @@ func (tr *translator) expr(e ast.Expr, en *env) (string, tinfo) {
 	case *ast.BinaryExpr:
 		// &^ with an untyped complement etc.: infer widths from the typed side
 		xs, xt := tr.expr(t.X, en)
+		if t.Op == token.LAND || t.Op == token.LOR {
+			tr.noHoist++
+		}
 		ys, yt := tr.expr(t.Y, en)
+		if t.Op == token.LAND || t.Op == token.LOR {
+			tr.noHoist--
+		}
 		w := xt.width
 		ti := xt
 		if t.Op != token.SHL && t.Op != token.SHR {
@@ -272,6 +369,56 @@ func (tr *translator) expr(e ast.Expr, en *env) (string, tinfo) {
 			return "(" + xs + " || " + ys + ")", tinfo{width: -1}
 		}
 	case *ast.CallExpr:
+		// len(x) of a []byte field
+		if id, ok := t.Fun.(*ast.Ident); ok && id.Name == "len" && len(t.Args) == 1 && tr.mon != "" {
+			xs, xt := tr.expr(t.Args[0], en)
+			if xt.width == -4 {
+				return "(glen " + xs + ")", tinfo{width: 0}
+			}
+		}
+		// call of another translated method on the struct receiver: hoisted, threads the record
+		if sel, ok := t.Fun.(*ast.SelectorExpr); ok && tr.mon != "" {
+			if id, ok := sel.X.(*ast.Ident); ok && id.Name == tr.ptrRecv {
+				if spec, ok := tr.funcs[tr.mon+"."+sel.Sel.Name]; ok {
+					if tr.noHoist > 0 {
+						fail("%s: method call under && or ||", tr.fn.Name)
+					}
+					var args []string
+					for _, a := range t.Args {
+						as, _ := tr.expr(a, en)
+						args = append(args, as)
+					}
+					name := coqName(spec.Pkg, spec.Recv, spec.Name)
+					rts := monResults[name]
+					var pats []string
+					var first string
+					var ft tinfo
+					for i, rt := range rts {
+						tmp := tr.tmp()
+						pats = append(pats, tmp)
+						if i == 0 {
+							first, ft = tmp, rt
+						}
+					}
+					pat := "tt"
+					if len(pats) == 1 {
+						pat = pats[0]
+					} else if len(pats) > 1 {
+						pat = "(" + strings.Join(pats, ", ") + ")"
+					}
+					if len(pats) == 0 {
+						pat = "_"
+					}
+					tr.pre = append(tr.pre, fmt.Sprintf("match %s %s with None => None | Some (%s, %s) =>", name, strings.Join(append([]string{v(tr.ptrRecv)}, args...), " "), v(tr.ptrRecv), pat))
+					tr.hoistedCall = true
+					if len(rts) > 1 {
+						// multi-value call: only usable through a tuple assignment (not supported) or as a statement
+						return "MULTI", tinfo{width: -3}
+					}
+					return first, ft
+				}
+			}
+		}
 		// conversion T(x)
 		if len(t.Args) == 1 {
 			ti := typeOf(t.Fun, tr.pkg)
@@ -320,8 +467,18 @@ func (tr *translator) expr(e ast.Expr, en *env) (string, tinfo) {
 }
 
 var resultTypes = map[string]tinfo{}
+var monResults = map[string][]tinfo{}
 
 func (tr *translator) ret(vals []string, en *env) string {
+	if tr.mon != "" {
+		r := "tt"
+		if len(vals) == 1 {
+			r = vals[0]
+		} else if len(vals) > 1 {
+			r = "(" + strings.Join(vals, ", ") + ")"
+		}
+		return "(Some (" + v(tr.ptrRecv) + ", " + r + "))"
+	}
 	var parts []string
 	for _, g := range tr.globals {
 		parts = append(parts, "g_"+g)
@@ -337,6 +494,36 @@ func (tr *translator) ret(vals []string, en *env) string {
 		return parts[0]
 	}
 	return "(" + strings.Join(parts, ", ") + ")"
+}
+
+// takePre returns the bindings hoisted while translating the expressions of one statement and resets
+// the collector; a hoisted method call must be the whole expression e (or its negation)
+func (tr *translator) takePre(es ...ast.Expr) []string {
+	pre := tr.pre
+	tr.pre = nil
+	if tr.hoistedCall {
+		ok := len(es) == 1
+		if ok {
+			e := es[0]
+			for {
+				if p, isP := e.(*ast.ParenExpr); isP {
+					e = p.X
+					continue
+				}
+				if u, isU := e.(*ast.UnaryExpr); isU && u.Op == token.NOT {
+					e = u.X
+					continue
+				}
+				break
+			}
+			_, ok = e.(*ast.CallExpr)
+		}
+		if !ok {
+			fail("%s: a method call on the receiver must be the whole expression of its statement", tr.fn.Name)
+		}
+	}
+	tr.hoistedCall = false
+	return pre
 }
 
 // block translates statements; k produces the term for "fall off the end of this list"
@@ -355,12 +542,41 @@ func (tr *translator) block(stmts []ast.Stmt, en *env, k func(en *env) string) s
 			}
 			vals = append(vals, x)
 		}
-		return tr.ret(vals, en)
+		pre := tr.takePre(s.Results...)
+		if len(s.Results) > 1 && len(pre) > 0 {
+			for _, p := range pre {
+				if !strings.HasPrefix(p, "match gidx") {
+					fail("%s: method call inside a multi-value return", tr.fn.Name)
+				}
+			}
+		}
+		return tr.wrapPre(pre, tr.ret(vals, en))
 	case *ast.AssignStmt:
 		if len(s.Lhs) != 1 || len(s.Rhs) != 1 {
 			fail("%s: multiple assignment not supported", tr.fn.Name)
 		}
 		rhs, rt := tr.expr(s.Rhs[0], en)
+		pre := tr.takePre(s.Rhs[0])
+		if f, ok := tr.recvField(s.Lhs[0]); ok {
+			if f.width <= 0 {
+				fail("%s: assignment to a non-integer field", tr.fn.Name)
+			}
+			cur := "(" + fieldName(tr.mon, f.name) + " " + v(tr.ptrRecv) + ")"
+			val := rhs
+			switch s.Tok {
+			case token.ASSIGN:
+				if rt.width == 0 {
+					val = tr.wrap(f.width, rhs)
+				}
+			case token.ADD_ASSIGN:
+				val = tr.wrap(f.width, "("+cur+" + "+rhs+")")
+			case token.SUB_ASSIGN:
+				val = fmt.Sprintf("(gsub %d %s %s)", f.width, cur, rhs)
+			default:
+				fail("%s: unsupported assignment operator on a field", tr.fn.Name)
+			}
+			return tr.wrapPre(pre, "let "+v(tr.ptrRecv)+" := "+tr.setField(f, val)+" in\n  "+rest(en))
+		}
 		var name string
 		var isGlobal bool
 		switch l := s.Lhs[0].(type) {
@@ -426,8 +642,26 @@ func (tr *translator) block(stmts []ast.Stmt, en *env, k func(en *env) string) s
 		if strings.Contains(val, "UNTYPED_NOT") {
 			val = strings.ReplaceAll(val, "(UNTYPED_NOT ", fmt.Sprintf("(gnot %d ", lt.width))
 		}
-		return "let " + coq + " := " + val + " in\n  " + rest(en2)
+		return tr.wrapPre(pre, "let "+coq+" := "+val+" in\n  "+rest(en2))
+	case *ast.ExprStmt:
+		if tr.mon == "" {
+			fail("%s: expression statement", tr.fn.Name)
+		}
+		tr.expr(s.X, en)
+		if !tr.hoistedCall {
+			fail("%s: unsupported expression statement", tr.fn.Name)
+		}
+		pre := tr.takePre(s.X)
+		return tr.wrapPre(pre, rest(en))
 	case *ast.IncDecStmt:
+		if f, ok := tr.recvField(s.X); ok {
+			cur := "(" + fieldName(tr.mon, f.name) + " " + v(tr.ptrRecv) + ")"
+			val := tr.wrap(f.width, "("+cur+" + 1)")
+			if s.Tok == token.DEC {
+				val = fmt.Sprintf("(gsub %d %s 1)", f.width, cur)
+			}
+			return "let " + v(tr.ptrRecv) + " := " + tr.setField(f, val) + " in\n  " + rest(en)
+		}
 		id, ok := s.X.(*ast.Ident)
 		if !ok {
 			fail("%s: unsupported ++/--", tr.fn.Name)
@@ -461,6 +695,9 @@ func (tr *translator) block(stmts []ast.Stmt, en *env, k func(en *env) string) s
 				if i < len(vs.Values) {
 					var vt tinfo
 					val, vt = tr.expr(vs.Values[i], en)
+					if len(tr.pre) > 0 {
+						fail("%s: index or method call in a var declaration", tr.fn.Name)
+					}
 					if vs.Type == nil {
 						ti = vt
 					}
@@ -475,6 +712,7 @@ func (tr *translator) block(stmts []ast.Stmt, en *env, k func(en *env) string) s
 			return tr.block(append([]ast.Stmt{s.Init, &ast.IfStmt{Cond: s.Cond, Body: s.Body, Else: s.Else}}, stmts[1:]...), en, k)
 		}
 		c, _ := tr.expr(s.Cond, en)
+		pre := tr.takePre(s.Cond)
 		thn := tr.block(s.Body.List, en, rest)
 		var els string
 		switch e := s.Else.(type) {
@@ -485,7 +723,7 @@ func (tr *translator) block(stmts []ast.Stmt, en *env, k func(en *env) string) s
 		case *ast.IfStmt:
 			els = tr.block([]ast.Stmt{e}, en, rest)
 		}
-		return "if " + c + "\n  then (" + thn + ")\n  else (" + els + ")"
+		return tr.wrapPre(pre, "if "+c+"\n  then ("+thn+")\n  else ("+els+")")
 	case *ast.BlockStmt:
 		return tr.block(append(append([]ast.Stmt{}, s.List...), stmts[1:]...), en, k)
 	case *ast.EmptyStmt:
@@ -531,6 +769,68 @@ func main() {
 	fmt.Println("Local Open Scope N_scope.")
 	fmt.Println("Local Open Scope bool_scope.")
 	fmt.Println()
+	var snames []string
+	for st := range cfg.Structs {
+		snames = append(snames, st)
+	}
+	sort.Strings(snames)
+	for _, st := range snames {
+		path := filepath.Join(cfg.Repo, cfg.Structs[st])
+		file := files[path]
+		if file == nil {
+			file, err = parser.ParseFile(fset, path, nil, 0)
+			if err != nil {
+				fail("%v", err)
+			}
+			files[path] = file
+		}
+		structPkg[st] = file.Name.Name
+		found := false
+		for _, d := range file.Decls {
+			gd, ok := d.(*ast.GenDecl)
+			if !ok || gd.Tok != token.TYPE {
+				continue
+			}
+			for _, sp := range gd.Specs {
+				ts := sp.(*ast.TypeSpec)
+				stt, ok := ts.Type.(*ast.StructType)
+				if !ok || ts.Name.Name != st {
+					continue
+				}
+				found = true
+				for _, fl := range stt.Fields.List {
+					var sf sfield
+					if at, ok := fl.Type.(*ast.ArrayType); ok && at.Len == nil {
+						if el := typeOf(at.Elt, file.Name.Name); el.width == 8 {
+							sf.width = -4
+						}
+					} else if ti := typeOf(fl.Type, file.Name.Name); ti.width > 0 {
+						sf.width = ti.width
+					}
+					if sf.width == 0 {
+						fail("struct %s: unsupported field type", st)
+					}
+					for _, n := range fl.Names {
+						structFields[st] = append(structFields[st], sfield{name: n.Name, width: sf.width})
+					}
+				}
+			}
+		}
+		if !found {
+			fail("struct %s not found in %s", st, cfg.Structs[st])
+		}
+		rn := recName(structPkg[st], st)
+		var fds []string
+		for _, f := range structFields[st] {
+			ty := "N"
+			if f.width == -4 {
+				ty = "list N"
+			}
+			fds = append(fds, fieldName(st, f.name)+" : "+ty)
+		}
+		fmt.Printf("(* %s : type %s *)\n", cfg.Structs[st], st)
+		fmt.Printf("Record %s := mk_%s { %s }.\n\n", rn, rn, strings.Join(fds, "; "))
+	}
 	for _, spec := range cfg.Funcs {
 		path := filepath.Join(cfg.Repo, spec.File)
 		file := files[path]
@@ -570,22 +870,31 @@ func main() {
 		if decl.Recv != nil {
 			r := decl.Recv.List[0]
 			ti := typeOf(r.Type, spec.Pkg)
-			if ti.width <= 0 {
-				fail("%s: unsupported receiver type", spec.Name)
-			}
 			name := "recv"
 			if len(r.Names) == 1 {
 				name = r.Names[0].Name
 			}
-			if _, ok := r.Type.(*ast.StarExpr); ok {
+			if ti.width == -5 {
+				if _, ok := r.Type.(*ast.StarExpr); !ok {
+					fail("%s: struct receivers must be pointers", spec.Name)
+				}
+				tr.mon = ti.named
 				tr.ptrRecv = name
+				params = append(params, "("+v(name)+" : "+recName(structPkg[ti.named], ti.named)+")")
+			} else {
+				if ti.width <= 0 {
+					fail("%s: unsupported receiver type", spec.Name)
+				}
+				if _, ok := r.Type.(*ast.StarExpr); ok {
+					tr.ptrRecv = name
+				}
+				en.vars[name] = ti
+				params = append(params, "("+v(name)+" : N)")
 			}
-			en.vars[name] = ti
-			params = append(params, "("+v(name)+" : N)")
 		}
 		for _, p := range decl.Type.Params.List {
 			ti := typeOf(p.Type, spec.Pkg)
-			if ti.width == -3 || ti.width == -2 {
+			if ti.width == -3 || ti.width == -2 || ti.width < -3 {
 				fail("%s: unsupported parameter type", spec.Name)
 			}
 			for _, n := range p.Names {
@@ -627,12 +936,15 @@ func main() {
 			gparams = append(gparams, "(g_"+g+" : N)")
 		}
 		name := coqName(spec.Pkg, spec.Recv, spec.Name)
+		if tr.mon != "" {
+			monResults[name] = tr.results
+		}
 		if len(tr.results) == 1 && len(tr.globals) == 0 && tr.ptrRecv == "" {
 			resultTypes[name] = tr.results[0]
 		} else {
 			resultTypes[name] = tinfo{width: -3}
 		}
-		if tr.ptrRecv != "" && len(tr.results) == 0 && len(tr.globals) == 0 {
+		if tr.ptrRecv != "" && tr.mon == "" && len(tr.results) == 0 && len(tr.globals) == 0 {
 			resultTypes[name] = en.vars[tr.ptrRecv]
 		}
 		fmt.Printf("(* %s : %s %s *)\n", spec.File, spec.Recv, spec.Name)
